@@ -313,15 +313,15 @@ func (x *Exec) roundTo(ctx apdCtx, mag, e *smt.Term) (*smt.Term, *smt.Term, *smt
 	if x.Cfg.Bound("round_abstract", 0) == 1 {
 		// relational model of the rounded result (handler-level runs): some value within
 		// half a unit of the P-th significant digit, i.e. relative error <= 5*10^-P
-		mag2 := B.Fresh("rounded", smt.SReal)
-		e2 := B.Fresh("roundedexp", smt.SInt)
+		mag2 := B.App("rounded_f", smt.SReal, mag, e, B.Int(P))
+		e2 := B.App("roundedexp_f", smt.SInt, mag, e, B.Int(P))
 		eps := B.RatC(new(big.Rat).SetFrac(big.NewInt(5), pow10(int(P))))
 		x.AssumeLocal(B.And(B.Ge(mag2, B.RealInt(0)), B.Gt(e2, e),
 			B.Le(B.Mul(mag, B.Sub(B.RealInt(1), eps)), mag2), B.Le(mag2, B.Mul(mag, B.Add(B.RealInt(1), eps)))), "rounded result within half an ulp (relational)")
 		return mag2, e2, B.True, B.Not(B.Eq(mag2, mag))
 	}
 	// position m of the leading digit: 10^(m-1) <= mag < 10^m
-	m := B.Fresh("lead", smt.SInt)
+	m := B.App("lead_f", smt.SInt, mag)
 	lo := x.expLo()*2 + P
 	hi := x.expHi()*2 + int64(2*x.digits()) + 2
 	x.setBounds(m, lo, hi, "leading digit position")
@@ -453,21 +453,21 @@ func registerDecimal(p *Program) {
 					lo := x.expLo()*2 - int64(x.digits()) - 2 - P
 					hi := x.expHi()*2 + int64(x.digits()) + 2
 					if x.Branch(B.App("quo_exact", smt.SBool, a.Mag, b.Mag)) {
-						e := B.Fresh("qexp", smt.SInt)
+						e := B.App("qexp_f", smt.SInt, a.Mag, b.Mag, a.Exp, b.Exp)
 						x.setBounds(e, lo, hi, "quotient exponent")
 						x.AssumeLocal(B.Le(e, B.Sub(a.Exp, b.Exp)), "quotient exponent at most the ideal exponent")
 						x.storeDec(dp, B.Int(0), neg, e, q)
 						return x.condResult(ctx, B.False, B.False)
 					}
-					mag2 := B.Fresh("quorounded", smt.SReal)
-					e2 := B.Fresh("quoroundedexp", smt.SInt)
+					mag2 := B.App("quorounded_f", smt.SReal, a.Mag, b.Mag, B.Int(P))
+					e2 := B.App("quoroundedexp_f", smt.SInt, a.Mag, b.Mag, a.Exp, b.Exp, B.Int(P))
 					x.setBounds(e2, lo, hi, "rounded quotient exponent")
 					eps := B.RatC(new(big.Rat).SetFrac(big.NewInt(5), pow10(int(P))))
 					x.AssumeLocal(B.And(B.Gt(mag2, zero), B.Le(B.Mul(q, B.Sub(B.RealInt(1), eps)), mag2), B.Le(mag2, B.Mul(q, B.Add(B.RealInt(1), eps)))), "rounded quotient within half an ulp (relational)")
 					x.storeDec(dp, B.Int(0), neg, e2, mag2)
 					return x.condResult(ctx, B.True, B.True)
 				}
-				m := B.Fresh("qlead", smt.SInt)
+				m := B.App("lead_f", smt.SInt, q)
 				lo := x.expLo()*2 - int64(x.digits()) - 2
 				hi := x.expHi()*2 + int64(x.digits()) + 2
 				x.setBounds(m, lo, hi, "quotient leading digit position")
@@ -479,7 +479,7 @@ func registerDecimal(p *Program) {
 				if x.Branch(exact) {
 					// exponent: min(ideal, largest exponent with an integral coefficient); only
 					// the value and an upper bound on the exponent matter to callers
-					e := B.Fresh("qexp", smt.SInt)
+					e := B.App("qexp_f", smt.SInt, a.Mag, b.Mag, a.Exp, b.Exp)
 					x.setBounds(e, lo-P, hi, "quotient exponent")
 					// the division stops at the first exact digit: e is the largest exponent <= ideal
 					// for which the coefficient is integral
@@ -570,13 +570,13 @@ func registerDecimal(p *Program) {
 				x.storeDec(c.Args[0], B.Int(0), a.Neg, B.Int(0), a.Mag)
 				return TupleV{c.Args[0], IntV{B.Neg(a.Exp)}}
 			}
-			e2 := B.Fresh("redexp", smt.SInt)
+			e2 := B.App("redexp_f", smt.SInt, a.Mag, a.Exp)
 			x.setBounds(e2, 1, hi, "reduced exponent")
 			x.AssumeLocal(B.And(B.Ge(e2, a.Exp), B.IsInt(B.Mul(a.Mag, B.RatC(big.NewRat(1, 10))))), "reduce: positive exponent")
 			x.storeDec(c.Args[0], B.Int(0), a.Neg, e2, a.Mag)
 			return TupleV{c.Args[0], IntV{B.Sub(e2, a.Exp)}}
 		}
-		e2 := B.Fresh("redexp", smt.SInt)
+		e2 := B.App("redexp_f", smt.SInt, a.Mag, a.Exp)
 		x.setBounds(e2, lo, -1, "reduced exponent")
 		x.AssumeLocal(B.Ge(e2, a.Exp), "reduce: negative exponent")
 		x.storeDec(c.Args[0], B.Int(0), a.Neg, e2, a.Mag)
@@ -1018,10 +1018,10 @@ func (x *Exec) apdNewFromString(s StrV) Value {
 func (x *Exec) decText(d decParts, verb byte) Value {
 	B := x.B
 	if c, ok := d.Form.ConstInt64(); ok && c != 0 {
-		return StrV{Atom: B.Fresh("dectext_special", smt.SStr)}
+		return StrV{Atom: B.App("dectext_special_f", smt.SStr, d.Form, d.Neg)}
 	} else if !ok {
 		if !x.Branch(B.Eq(d.Form, B.Int(0))) {
-			return StrV{Atom: B.Fresh("dectext_special", smt.SStr)}
+			return StrV{Atom: B.App("dectext_special_f", smt.SStr, d.Form, d.Neg)}
 		}
 	}
 	name := fmt.Sprintf("dec_text_%c", verb)
